@@ -6,6 +6,7 @@ import (
 	"net/netip"
 	"os"
 	"path/filepath"
+	"strconv"
 	"strings"
 
 	"github.com/AdguardTeam/urlfilter"
@@ -286,7 +287,61 @@ func c13Exec(e *c13Engines, o c13Op, opIdx int) (snap string, kept []*c13Kept, d
 	return snap, kept, dres, mres, all
 }
 
+// c13Big is one long history over a large list: more rules are retrieved than
+// any plausible bound of a cache (1 400 of 1 500 in the quick tier, 70 000 of
+// 75 000 in the thorough one), by queries whose name or URL contains the key
+// of one rule twice with the key of another rule in between.  Every answer is
+// known: exactly the one rule that matches, once.
+func c13Big(c *core.Ctx, n int) {
+	var sb strings.Builder
+	for i := 0; i < n; i++ {
+		fmt.Fprintf(&sb, "||h%d.big.example^\n", i)
+	}
+	dns := urlfilter.NewDNSEngine(util.Storage(sb.String()))
+	net := urlfilter.NewNetworkEngine(util.Storage(sb.String()))
+	perm := c.Rng.Perm(n)
+	for k := 0; k+1 < len(perm)*14/15; {
+		a, b := perm[k], perm[k+1]
+		k += 2
+		host := fmt.Sprintf("h%d.big.example.cdn.h%d.big.example.x.h%d.big.example", a, b, a)
+		url := fmt.Sprintf("http://h%d.big.example/p/h%d.big.example/q/h%d.big.example", a, b, a)
+		if c.Rng.Intn(3) == 0 {
+			// (one new rule only, so that the cache fills at varying points)
+			host, url = fmt.Sprintf("h%d.big.example", a), fmt.Sprintf("http://h%d.big.example/", a)
+			k--
+		}
+		want := fmt.Sprintf("[||h%d.big.example^]", a)
+		var got1, got2 string
+		w := map[string]any{"rules": n, "queries_so_far": k, "host": host, "url": url}
+		if c.Guard("big-history", nil, w, func() {
+			res, _ := dns.MatchRequest(&urlfilter.DNSRequest{Hostname: host, DNSType: 1})
+			got1 = fmt.Sprint(util.Texts(res.NetworkRules))
+			got2 = fmt.Sprint(util.Texts(net.MatchAll(rules.NewRequest(url, "", rules.TypeScript))))
+		}) {
+			return
+		}
+		c.Eval(2)
+		if got1 != want {
+			c.Violation("answer-depends-on-history:dns", nil, w, "after %d queries over %d rules DNSEngine.MatchRequest(%s).NetworkRules = %s, a fresh engine answers %s", k, n, host, got1, want)
+
+			return
+		}
+		if got2 != want {
+			c.Violation("answer-depends-on-history:all", nil, w, "after %d queries over %d rules NetworkEngine.MatchAll(%s) = %s, a fresh engine answers %s", k, n, url, got2, want)
+
+			return
+		}
+	}
+	c.Event("big_history_rules_retrieved", int64(n*14/15))
+	c.NonTrivial(core.Hash64("big", strconv.Itoa(n)))
+}
+
 func c13Run(c *core.Ctx, idx int) {
+	if idx == 1 {
+		c13Big(c, map[core.Tier]int{core.Quick: 1500, core.Thorough: 75000}[c.Env.Tier])
+
+		return
+	}
 	c13Hosts = c13BaseHosts
 	if len(gen.HostGroups) > 0 && c.Rng.Intn(3) == 0 {
 		g := gen.HostGroups[c.Rng.Intn(len(gen.HostGroups))]
@@ -495,7 +550,7 @@ func init() {
 		ID:    "C13",
 		Level: "exploration",
 		Rule: "per case one list of 15..65 lines (rules with per-request modifiers $client/$ctag/$dnstype, $dnsrewrite rules and exceptions, badfilter twins, regexps that do not compile, cosmetic rules, hosts lines, referrer-level exceptions), String- or File-backed, and one history of 40..160 (thorough 50..400) operations drawn with heavy repetition from 26 distinct DNS / web / MatchAll / cosmetic queries (consecutive DNS queries with and without client name, address, tags, record type) interleaved with DNSRewrites, DNSRewritesAll, GetBasicResult, GetCosmeticOption, GetDNSBasicRule and NewMatchingResult on OLD results; " +
-			"oracle: every answer == the answer of a fresh engine over the same bytes (memoised per distinct query), and every kept result object re-snapshotted after every later operation == its snapshot at return; non-trivial = every history; distinct by list and length",
+			"oracle: every answer == the answer of a fresh engine over the same bytes (memoised per distinct query), and every kept result object re-snapshotted after every later operation == its snapshot at return; plus one long history over 1 500 (thorough 75 000) rules in which nearly all of them are retrieved by queries that contain one rule's key twice; non-trivial = every history; distinct by list and length",
 		Assumptions: []string{
 			"snapshots cover the exported state of results and rules (texts, flags, list ids, shortcut, rewrite values, slice contents and order)",
 		},
